@@ -13,7 +13,7 @@ def Inv (s : Sys) : Prop := s.cap < 2 ^ 64 ∧ ∀ d ∈ s.objs, d.length ≤ s.
 /-- wherever the standard specifies the value of an object, the model has exactly that value -/
 def Rel (s : Sys) (sp : Spec.SSys) : Prop :=
   sp.cap = s.cap ∧ sp.objs.length = s.objs.length ∧
-    ∀ (i : Nat) (l : List Nat), sp.objs[i]? = some (some l) → s.objs[i]? = some l
+    (∀ (i : Nat) (l : List Nat), sp.objs[i]? = some (some l) → s.objs[i]? = some l) ∧ sp.kind = s.kind
 
 theorem Inv.setObj {s : Sys} (h : Inv s) (k : Nat) (d : V) (hd : d.length ≤ s.cap) : Inv (s.setObj k d) := by
   refine ⟨h.1, ?_⟩
@@ -24,8 +24,8 @@ theorem Inv.setObj {s : Sys} (h : Inv s) (k : Nat) (d : V) (hd : d.length ≤ s.
 
 theorem Rel.setObj {s : Sys} {sp : Spec.SSys} (h : Rel s sp) (k : Nat) (d : V) (x : Spec.SObj)
     (hx : ∀ l, x = some l → d = l) : Rel (s.setObj k d) (sp.setObj k x) := by
-  obtain ⟨h1, h2, h3⟩ := h
-  refine ⟨h1, by simp [Sys.setObj, Spec.SSys.setObj, h2], ?_⟩
+  obtain ⟨h1, h2, h3, h4⟩ := h
+  refine ⟨h1, by simp [Sys.setObj, Spec.SSys.setObj, h2], ?_, h4⟩
   intro i l hi
   simp only [Sys.setObj, Spec.SSys.setObj, List.getElem?_set] at hi ⊢
   by_cases hki : k = i
@@ -42,8 +42,8 @@ theorem Rel.setObj {s : Sys} {sp : Spec.SSys} (h : Rel s sp) (k : Nat) (d : V) (
 /-- the model changed an object whose value the spec does not specify -/
 theorem Rel.setObj_unspec {s : Sys} {sp : Spec.SSys} (h : Rel s sp) (k : Nat) (d : V)
     (hx : Spec.getObj sp k = none) : Rel (s.setObj k d) sp := by
-  obtain ⟨h1, h2, h3⟩ := h
-  refine ⟨h1, by simp [Sys.setObj, h2], ?_⟩
+  obtain ⟨h1, h2, h3, h4⟩ := h
+  refine ⟨h1, by simp [Sys.setObj, h2], ?_, h4⟩
   intro i l hi
   simp only [Sys.setObj, List.getElem?_set]
   by_cases hki : k = i
@@ -64,7 +64,7 @@ theorem Rel.get {s : Sys} {sp : Spec.SSys} (h : Rel s sp) {j : Nat} {l : List Na
       rw [hq] at hj
       simp at hj
       rw [hj]
-  exact h.2.2 j l hs
+  exact h.2.2.1 j l hs
 
 theorem getObj_eq {s : Sys} {sp : Spec.SSys} (h : Rel s sp) {j : Nat} {d : V} (hd : s.objs[j]? = some d) :
     ∀ l, Spec.getObj sp j = some l → d = l := by
